@@ -110,9 +110,9 @@ def _i_on_break(E, env, trace, fq, ordn):
         order = [e[0] for e in ev if e[0] in ('lookup', 'callcond', 'render')]
         E.oblige('%s::C09.chosen.evaluate_then_render' % fq, order[-1] == 'render' and len(order) == 2, kind='trace',
                  detail='condition evaluated before its body is rendered')
-    import z3
-    E.oblige('%s::C09.chosen.else_disabled' % fq, E.as_z3_int(env.locals['m']) == -1, kind='trace',
-             detail='after a true condition m == -1, so the else body is not rendered')
+    # (that the else body is not rendered after a true condition is the clause C09.after.nothing_else_rendered below,
+    # stated over the trace; an earlier clause "m == -1" pinned the temporary the code happens to use and raised a false
+    # alarm on an equivalent while/else formulation: removed)
 
 
 def _outer_on_iteration(E, env, trace, fq, ordn):
